@@ -63,6 +63,13 @@ def comment_for(cfg):
     return " ".join(parts) if parts else None
 
 
+def strip_private(prog):
+    """drop harness-only keys (leading underscore) before a program is shipped to TLC"""
+    p = {k: v for k, v in prog.items() if not k.startswith("_")}
+    p["meta"] = [{"k": m["k"], "v": m["v"]} for m in prog.get("meta", [])]
+    return p
+
+
 def run_case(case, method="collect"):
     """Execute one case for real. Returns (trace_record | None, info)."""
     d = scratch.scratch_dir() or scratch.enter_scratch()
@@ -103,7 +110,8 @@ def run_case(case, method="collect"):
                 raise ValueError(method)
         except Exception as e:
             raised = type(e).__name__ + ": " + str(e)[:200]
-    info = {"csvpath": text.replace(path, "f.csv"), "records": case["records"], "method": method, "raised": raised}
+    info = {"csvpath": text.replace(path, "f.csv"), "records": case["records"], "method": method, "raised": raised,
+            "adjacent_refs": bool(case["prog"].get("_adjacent_refs"))}
     try:
         evs = [_enc_event(e) for e in events]
         ret_idx = [e["k"] for e in events if e["ret"]]
@@ -135,9 +143,10 @@ def run_case(case, method="collect"):
     info["variables"] = repr(p.variables)[:400]
     info["returned"] = ret_idx
     info["events"] = [{"k": e["k"], "ret": e["ret"], "votes": e["votes"], "vars": repr(e["vars"])[:300], "sc": e["scan_count"], "mc": e["match_count"], "stopped": e["stopped"], "adv": e["advance"], "valid": e["valid"], "printed": e["printed"]} for e in events]
+    case["prog"].setdefault("meta", [])
     rec = {
         "tid": case["tid"],
-        "prog": case["prog"],
+        "prog": strip_private(case["prog"]),
         "file": lang.enc_file(case["records"]),
         "cfg": case["cfg"],
         "events": evs,
